@@ -32,10 +32,17 @@ same content to the folder `pb`), hypotheses `MoveOk`; `moveFile_moved` (RenameL
   5. `move_without_dr` (`move_without_dr_create`, `move_without_dr_verify`): without `-dr` create ends with exit 10
      naming a; verify reports new = [b], missing = [a] (exit 21), diff the same (exit 10).
 
+  6. (D19: the detection iterates `sorted(not_found_paths)`, it used to iterate a set)
+     `detectRenames_order_independent` (nested histories allowed): if for every new path at most one not-found path
+     matches, the whole result of `detectRenames` is the same for any two orders of the not-found paths;
+     `detectRenames_sorted`, `createFolder_dr_order_independent`; `order_matters`: without the hypothesis the previous
+     path recorded is the LAST matching element of the list.
+
 FINDING (`duplicate_hides_deletion`): the uniqueness hypothesis the task asks for is NOT needed for a single move
 (one missing path, one new path: one candidate pair).  It matters when two not-found paths carry the same first
 digest: both are linked to the one new path, both are taken off the missing list (a DELETED duplicate is not
-reported), the record keeps the LAST candidate as previous path, and a later `verify` reports the other one missing.
+reported), the record keeps the LAST candidate (since D19: in the sorted order of the path strings) as previous path,
+and a later `verify` reports the other one missing.
 
 The last section evaluates the whole pipeline on a concrete tree by `decide +kernel`.
 -/
@@ -1050,18 +1057,27 @@ example : (createFolder exEnv (movedSealed exEnv "root" exKids exOpts [] "a.txt"
 have the same digest (the toy digest sees the length; with a real digest: two copies of one file).  `sub/x` is
 renamed to `sub/y` and `b.txt` is DELETED.  `create -dr` links BOTH old names to `sub/y`: exit code 0, nothing
 reported missing (the deletion of `b.txt` goes unnoticed), two renames reported, and the record of `sub/y` keeps the
-LAST candidate `b.txt` — the wrong one — as previous path.  The tree is then NOT accepted later: `verify` drops
-`b.txt` from the expected paths, still expects `sub/x`, and ends with exit code 10. -/
+LAST candidate IN THE SORTED ORDER OF THE PATH STRINGS as previous path.  The tree is then NOT accepted later:
+`verify` ends with exit code 10.
+
+D19 (the detection iterates `sorted(not_found_paths)`): the concrete result CHANGED.  The not-found list is
+`[sub/x, b.txt]` (order of the recorded generation); it is now visited as `[b.txt, sub/x]`.  Before D19 this example
+read
+    report.renamed = [("sub/x", "sub/y"), ("b.txt", "sub/y")]
+    written records = [[("sub/y", some "b.txt"), ("sub", none), ("a.txt", none)]]     -- the wrong candidate
+    verify … report.missing = ["sub/x"]
+now the renames are reported in sorted order, the last candidate is `sub/x` (here, by the luck of the names, the right
+one), and the later `verify` drops `sub/x` from the expected paths and misses `b.txt`. -/
 def exDup : Node :=
   Node.updateAt (removeChild "b.txt") (movedSealed exEnv "root" exKids exOpts ["sub"] "x" ["sub"] "y") []
 
 theorem duplicate_hides_deletion :
     (createFolder exEnv exDup exDr).err = none ∧ (createFolder exEnv exDup exDr).report.missing = [] ∧
-    (createFolder exEnv exDup exDr).report.renamed = [("sub/x", "sub/y"), ("b.txt", "sub/y")] ∧
+    (createFolder exEnv exDup exDr).report.renamed = [("b.txt", "sub/y"), ("sub/x", "sub/y")] ∧
     ((createFolder exEnv exDup exDr).written.map fun w => w.gen.records.map fun r => (r.path, r.prev)) =
-      [[("sub/y", some "b.txt"), ("sub", none), ("a.txt", none)]] ∧
+      [[("sub/y", some "sub/x"), ("sub", none), ("a.txt", none)]] ∧
     (verify exEnv (applyWritten exDup (createFolder exEnv exDup exDr).written) {}).exitCode = 10 ∧
-    (verify exEnv (applyWritten exDup (createFolder exEnv exDup exDr).written) {}).report.missing = ["sub/x"] ∧
+    (verify exEnv (applyWritten exDup (createFolder exEnv exDup exDr).written) {}).report.missing = ["b.txt"] ∧
     -- without `-dr` both are reported
     (createFolder exEnv exDup exOpts).report.missing = ["sub/x", "b.txt"] := by
   unfold verify verifyOrDiff createFolder expectedPaths expectedOfGens
@@ -1069,6 +1085,146 @@ theorem duplicate_hides_deletion :
   decide +kernel
 
 end pipeline
+
+/-! ### 6. (D19) the order of the not-found paths
+
+`create -dr` used to iterate a Python SET of not-found paths (any order); it now iterates `sorted(not_found_paths)`
+(`createFolder` hands `isort pathLe notFound` to `detectRenames`).  Under the hypothesis of the property (the
+candidates are unambiguous: for every new path AT MOST ONE not-found path matches) the order never mattered; without
+it the order decides which candidate is recorded as previous path (`order_matters`) — the defect that was repaired.
+Nested histories are allowed here (`matchesG` routes the not-found path to the history that owns it; on a flat history
+it is `matchesB`, `matchesG_flat`); the session has to be keyed by root, as everywhere in this file. -/
+
+section order
+open MhlProps.C02rec MhlProps.C04
+
+/-- `detectRenames_order_independent`: if for every new path at most one of the not-found paths matches (the test of
+the loop, `matchesG_iff`: the first entry recorded for the old path has the digest of the new record's entry in that
+format, or of `env.H fmt content`), then for any two orders `nf₁`, `nf₂` of the not-found paths the detection gives
+the same session, the same paths found again and the same renames — the whole triple is EQUAL. -/
+theorem detectRenames_order_independent (env : Env) (t : Node) (rootHist : Hist) (s : Session) (hs : s.RootsNodup)
+    (newPaths nf₁ nf₂ : List RelPath) (hp : nf₁.Perm nf₂)
+    (hu : ∀ np ∈ newPaths, ∀ a ∈ nf₁, ∀ b ∈ nf₁, matchesG env t rootHist s np a = true →
+      matchesG env t rootHist s np b = true → a = b) :
+    detectRenames env t rootHist s newPaths nf₁ = detectRenames env t rootHist s newPaths nf₂ :=
+  detectRenames_notFound_perm env t rootHist s hs newPaths nf₁ nf₂ hp hu
+
+/-- the same in the suggested form: two duplicate-free lists with the same elements; same session, same SET of old
+paths found again (and the same renames) -/
+theorem detectRenames_order_independent' (env : Env) (t : Node) (rootHist : Hist) (s : Session) (hs : s.RootsNodup)
+    (newPaths nf₁ nf₂ : List RelPath) (hn₁ : nf₁.Nodup) (hn₂ : nf₂.Nodup) (hmem : ∀ x, x ∈ nf₁ ↔ x ∈ nf₂)
+    (hu : ∀ np ∈ newPaths, ∀ a ∈ nf₁, ∀ b ∈ nf₁, matchesG env t rootHist s np a = true →
+      matchesG env t rootHist s np b = true → a = b) :
+    (detectRenames env t rootHist s newPaths nf₁).1 = (detectRenames env t rootHist s newPaths nf₂).1 ∧
+    (∀ x, x ∈ (detectRenames env t rootHist s newPaths nf₁).2.1 ↔
+      x ∈ (detectRenames env t rootHist s newPaths nf₂).2.1) ∧
+    (detectRenames env t rootHist s newPaths nf₁).2.2 = (detectRenames env t rootHist s newPaths nf₂).2.2 := by
+  rw [detectRenames_order_independent env t rootHist s hs newPaths nf₁ nf₂
+    ((List.perm_ext_iff_of_nodup hn₁ hn₂).2 hmem) hu]
+  exact ⟨rfl, fun _ => Iff.rfl, rfl⟩
+
+/-- on a flat history, with the test `matchesB` of 1–3 -/
+theorem detectRenames_order_independent_flat (env : Env) (t : Node) (rootHist : Hist) (hc : rootHist.children = [])
+    (s : Session) (hs : s.RootsNodup) (newPaths nf₁ nf₂ : List RelPath) (hp : nf₁.Perm nf₂)
+    (hu : ∀ np ∈ newPaths, ∀ a ∈ nf₁, ∀ b ∈ nf₁, matchesB env t rootHist.gens s np a = true →
+      matchesB env t rootHist.gens s np b = true → a = b) :
+    detectRenames env t rootHist s newPaths nf₁ = detectRenames env t rootHist s newPaths nf₂ :=
+  detectRenames_order_independent env t rootHist s hs newPaths nf₁ nf₂ hp fun np hnp a ha b hb h1 h2 =>
+    hu np hnp a ha b hb (matchesG_flat env t rootHist hc s np a ▸ h1) (matchesG_flat env t rootHist hc s np b ▸ h2)
+
+/-- sorting the not-found paths (by any test `le`) changes nothing when the candidates are unambiguous -/
+theorem detectRenames_sorted (env : Env) (t : Node) (rootHist : Hist) (s : Session) (hs : s.RootsNodup)
+    (le : RelPath → RelPath → Bool) (newPaths notFound : List RelPath)
+    (hu : ∀ np ∈ newPaths, ∀ a ∈ notFound, ∀ b ∈ notFound, matchesG env t rootHist s np a = true →
+      matchesG env t rootHist s np b = true → a = b) :
+    detectRenames env t rootHist s newPaths (isort le notFound) = detectRenames env t rootHist s newPaths notFound :=
+  (detectRenames_order_independent env t rootHist s hs newPaths notFound (isort le notFound)
+    (isort_perm le notFound).symm hu).symm
+
+/-- folder-mode `create -dr` as a whole: when the candidates are unambiguous, the outcome is the one computed with
+the not-found paths visited in ANY order `nf'` -/
+theorem createFolder_dr_order_independent (env : Env) (t : Node) (o : CreateOpts) (rootHist : Hist)
+    (hl : loadHistory t = .ok rootHist) (hdr : o.detectRenaming = true)
+    (hs : (cState env t rootHist o).session.RootsNodup)
+    (nf' : List RelPath) (hp : nf'.Perm (cNotFound env t rootHist o))
+    (hu : ∀ np ∈ (cState env t rootHist o).newPaths, ∀ a ∈ nf', ∀ b ∈ nf',
+      matchesG env t rootHist (cState env t rootHist o).session np a = true →
+      matchesG env t rootHist (cState env t rootHist o).session np b = true → a = b) :
+    createFolder env t o =
+      match commit rootHist (detectRenames env t rootHist (cState env t rootHist o).session
+          (cState env t rootHist o).newPaths nf').1 env.rootName env.stamp "in-place" with
+      | .error e => { err := some e }
+      | .ok written =>
+        let fo := (detectRenames env t rootHist (cState env t rootHist o).session
+          (cState env t rootHist o).newPaths nf').2.1
+        let missing := missingAfter (cHit env rootHist o) ((cNotFound env t rootHist o).filter fun p => !fo.contains p)
+        { err := createExit (cState env t rootHist o).failed missing (cMissingHist t rootHist),
+          report := { mismatch := (cState env t rootHist o).mismatch,
+                      missing := missing.map posix,
+                      renamed := (detectRenames env t rootHist (cState env t rootHist o).session
+                        (cState env t rootHist o).newPaths nf').2.2 },
+          written := written } := by
+  have hdet := detectRenames_order_independent env t rootHist _ hs (cState env t rootHist o).newPaths nf'
+    (cNotFoundSorted env t rootHist o) (hp.trans (isort_perm _ _).symm) hu
+  rw [hdet]
+  unfold createFolder
+  simp only [hl, hdr, if_true]
+  rfl
+
+end order
+
+/-! #### the witness: without the hypothesis the order matters
+
+`a.txt` and `a2.txt` carry the same first digest, the new file `b.txt` has it too (the example of 1–3).  The record
+of `b.txt` gets the LAST matching element of the list as previous path: `a2.txt` for the list `[a.txt, z.txt, a2.txt]`,
+`a.txt` for the list `[a2.txt, z.txt, a.txt]`; the renames are reported in list order.  With a Python set the order of
+the list was arbitrary (it could change from run to run); `sorted` makes it `[a.txt, a2.txt, z.txt]`. -/
+
+section witness
+open MhlProps.C17
+
+theorem order_matters :
+    ((detectRenames exEnv exTree2 exHist2 exSession2 [["b.txt"]] [["a.txt"], ["z.txt"], ["a2.txt"]]).1.lists.map
+      fun l => l.records.map fun r => (r.path, r.prev)) = [[("b.txt", some "a2.txt"), ("c.txt", none)]] ∧
+    ((detectRenames exEnv exTree2 exHist2 exSession2 [["b.txt"]] [["a2.txt"], ["z.txt"], ["a.txt"]]).1.lists.map
+      fun l => l.records.map fun r => (r.path, r.prev)) = [[("b.txt", some "a.txt"), ("c.txt", none)]] ∧
+    (detectRenames exEnv exTree2 exHist2 exSession2 [["b.txt"]] [["a.txt"], ["z.txt"], ["a2.txt"]]).2.2 =
+      [("a.txt", "b.txt"), ("a2.txt", "b.txt")] ∧
+    (detectRenames exEnv exTree2 exHist2 exSession2 [["b.txt"]] [["a2.txt"], ["z.txt"], ["a.txt"]]).2.2 =
+      [("a2.txt", "b.txt"), ("a.txt", "b.txt")] ∧
+    -- the two lists are orders of the same set, and the hypothesis of `detectRenames_order_independent` fails
+    ([["a.txt"], ["z.txt"], ["a2.txt"]] : List RelPath).Perm [["a2.txt"], ["z.txt"], ["a.txt"]] ∧
+    matchesG exEnv exTree2 exHist2 exSession2 ["b.txt"] ["a.txt"] = true ∧
+    matchesG exEnv exTree2 exHist2 exSession2 ["b.txt"] ["a2.txt"] = true := by
+  refine ⟨by decide, by decide, by decide, by decide, by decide, by decide, by decide⟩
+
+/-- the detection's sessions for the two orders are different -/
+theorem order_matters_ne :
+    (detectRenames exEnv exTree2 exHist2 exSession2 [["b.txt"]] [["a.txt"], ["z.txt"], ["a2.txt"]]).1.lists.map
+      (fun l => l.records.map fun r => r.prev) ≠
+    (detectRenames exEnv exTree2 exHist2 exSession2 [["b.txt"]] [["a2.txt"], ["z.txt"], ["a.txt"]]).1.lists.map
+      (fun l => l.records.map fun r => r.prev) := by decide
+
+/-- the order `createFolder` now uses: both lists are visited as `[a.txt, a2.txt, z.txt]`, so `a2.txt` is recorded -/
+example : isort pathLe [["a2.txt"], ["z.txt"], ["a.txt"]] = [["a.txt"], ["a2.txt"], ["z.txt"]] ∧
+    isort pathLe [["a.txt"], ["z.txt"], ["a2.txt"]] = [["a.txt"], ["a2.txt"], ["z.txt"]] ∧
+    ((detectRenames exEnv exTree2 exHist2 exSession2 [["b.txt"]]
+      (isort pathLe [["a2.txt"], ["z.txt"], ["a.txt"]])).1.lists.map
+      fun l => l.records.map fun r => (r.path, r.prev)) = [[("b.txt", some "a2.txt"), ("c.txt", none)]] := by
+  refine ⟨by decide, by decide, by decide⟩
+
+/-- non-vacuity of `detectRenames_order_independent`: with `a2.txt` out of the way the hypothesis holds -/
+example : (∀ np ∈ ([["b.txt"], ["c.txt"]] : List RelPath), ∀ a ∈ ([["a.txt"], ["z.txt"]] : List RelPath),
+      ∀ b ∈ ([["a.txt"], ["z.txt"]] : List RelPath), matchesG exEnv exTree2 exHist2 exSession2 np a = true →
+      matchesG exEnv exTree2 exHist2 exSession2 np b = true → a = b) ∧
+    detectRenames exEnv exTree2 exHist2 exSession2 [["b.txt"], ["c.txt"]] [["a.txt"], ["z.txt"]] =
+      detectRenames exEnv exTree2 exHist2 exSession2 [["b.txt"], ["c.txt"]] [["z.txt"], ["a.txt"]] := by
+  have h : ∀ np ∈ ([["b.txt"], ["c.txt"]] : List RelPath), ∀ a ∈ ([["a.txt"], ["z.txt"]] : List RelPath),
+      ∀ b ∈ ([["a.txt"], ["z.txt"]] : List RelPath), matchesG exEnv exTree2 exHist2 exSession2 np a = true →
+      matchesG exEnv exTree2 exHist2 exSession2 np b = true → a = b := by decide
+  exact ⟨h, detectRenames_order_independent _ _ _ _ exSession2_ok _ _ _ (by decide) h⟩
+
+end witness
 
 end MhlProps.C17detect
 
@@ -1085,6 +1241,13 @@ end MhlProps.C17detect
 #print axioms MhlProps.C17detect.detectRenames_prev_untouched
 #print axioms MhlProps.C17detect.detectRenames_preserves_records
 #print axioms MhlProps.C17detect.put_needs_distinct_roots
+#print axioms MhlProps.C17detect.detectRenames_order_independent
+#print axioms MhlProps.C17detect.detectRenames_order_independent'
+#print axioms MhlProps.C17detect.detectRenames_order_independent_flat
+#print axioms MhlProps.C17detect.detectRenames_sorted
+#print axioms MhlProps.C17detect.createFolder_dr_order_independent
+#print axioms MhlProps.C17detect.order_matters
+#print axioms MhlProps.C17detect.order_matters_ne
 #print axioms MhlProps.C17detect.rename_run
 #print axioms MhlProps.C17detect.verifyOrDiff_after_rename
 #print axioms MhlProps.C17detect.rename_e2e_moved
